@@ -36,6 +36,7 @@ def contexts(sep, c):
         "S5": ([kv, " w"], 1, 1, "_none_", None),
         "S7": (["[g]", kv], 1, 1, "g", None),
         "SJ2": ([kv, "k%sw" % sep], 2, 1, "_none_", None),
+        "S7l": (["[gh]", kv], 1, 1, "gh", None),   # an existing section whose name has proper prefixes
     }
 
 
@@ -130,6 +131,7 @@ def register(J):
             J.append(mk("K_ENTRY", d, c, ctx, 9, ctx != "S0", Q if quick else T))
     J.append(mk("K_ENTRY", "none", "hash", "S1", 6, True, Q))
     J.append(mk("K_ENTRY", "eq", "hash", "S1", 11, True, T))
+    J.append(mk("K_HEADER", "eq", "hash", "S7l", 7, True, Q))
     for d, c in (("eq", "hash"), ("sp", "hash"), ("speq", "hashsemi"), ("none", "hash"), ("coloneq", "semi")):
         for ctx in ("S0", "S1", "S7"):
             J.append(mk("K_HEADER", d, c, ctx, 7, True, Q if (d == "eq" or ctx == "S1") else T))
